@@ -342,6 +342,15 @@ func genC21(r *simrt.RNG, tier string) *simrt.Scenario {
 		case 3:
 			sc.Ops = append(sc.Ops, g.addblk(true, true))
 		case 4:
+			if r.Chance(1, 3) {
+				// a reorganisation the blockchain has finished before the pool sees any of it
+				ro := simrt.Op{K: "reorg", I: []int64{int64(r.Intn(3)), int64(r.Intn(600))}}
+				for k, nb := 0, r.Range(1, 3); k < nb; k++ {
+					ro.Sub = append(ro.Sub, simrt.Op{K: "nb", Sub: g.picks(r.Range(0, 3), false, false)})
+				}
+				sc.Ops = append(sc.Ops, ro)
+				break
+			}
 			sc.Ops = append(sc.Ops, simrt.Op{K: "delblk"})
 			if r.Chance(1, 3) {
 				sc.Ops = append(sc.Ops, simrt.Op{K: "delblk"})
